@@ -1,9 +1,10 @@
 (* Block-file storage primitives.  Transcribed from
      src/util/obfuscation.h     Obfuscation::SetRotations, ToKey, XorWord, operator()
+     src/node/blockstorage.cpp  BlockManager::WriteBlock (record layout), ReadRawBlock, ReadBlock, ReadBlockUndo (what it looks at)
    (little-endian host, as on every platform the project supports; std::endian::native == little)
    Executable definitions only (proofs are in proofs/SerStoreLemmas.v). *)
 From Coq Require Import NArith.
-From BV Require Import lib.Ints gen.Params_gen model.SerBase.
+From BV Require Import lib.Ints gen.Params_gen model.SerBase model.SerTx.
 Local Open Scope Z_scope.
 
 (* static KeyType ToKey(span<const std::byte, 8> key_span) { KeyType key{}; std::memcpy(&key, key_span.data(), 8); return key; } *)
@@ -98,3 +99,83 @@ Fixpoint xor_stream (key_bytes : list N) (off : Z) (target : list N) : list N :=
   | [] => []
   | b :: r => N.lxor b (nth (Z.to_nat (off mod 8)) key_bytes 0%N) :: xor_stream key_bytes (off + 1) r
   end.
+
+(* ---- block records in a blk file (plaintext, i.e. after the obfuscation layer) ----
+   WriteBlock:   fileout << GetParams().MessageStart() << block_size;  pos.nPos += STORAGE_HEADER_BYTES;  fileout << TX_WITH_WITNESS(block);
+   The index stores the position of the payload (8 bytes after the start of the record). *)
+Definition write_record (magic payload : list N) : list N :=
+  magic ++ write_le 4 (Z.of_nat (length payload)) ++ payload.
+
+Fixpoint bytes_eq (a b : list N) : bool :=
+  match a, b with
+  | [], [] => true
+  | x :: a', y :: b' => (x =? y)%N && bytes_eq a' b'
+  | _, _ => false
+  end.
+
+(* ReadRawBlockResult BlockManager::ReadRawBlock(const FlatFilePos& pos, ...) const
+   {
+       if (pos.nPos < STORAGE_HEADER_BYTES) return Unexpected{ReadRawError::IO};
+       AutoFile filein{OpenBlockFile({pos.nFile, pos.nPos - STORAGE_HEADER_BYTES}, true)};    // fseek to pos - 8
+       try {
+           MessageStartChars blk_start; unsigned int blk_size;
+           filein >> blk_start >> blk_size;
+           if (blk_start != GetParams().MessageStart()) return Unexpected{IO};
+           if (blk_size > MAX_SIZE) return Unexpected{IO};
+           std::vector<std::byte> data(blk_size);
+           filein.read(data);
+           return data;
+       } catch (const std::exception& e) { return Unexpected{IO}; }                          // short read
+   }
+   `file` is the plaintext content of the block file; None = ReadRawError::IO. *)
+Definition read_raw_block (magic file : list N) (pos : Z) : option (list N) :=
+  if pos <? 8 then None
+  else
+    let s := skipn (Z.to_nat (pos - 8)) file in
+    match read_bytes 4 s with
+    | Err _ => None
+    | Ok m s1 =>
+      match read_le 4 s1 with
+      | Err _ => None
+      | Ok size s2 =>
+        if negb (bytes_eq m magic) then None
+        else if size >? MAX_SIZE then None
+        else match read_bytes_z size s2 with Ok data _ => Some data | Err _ => None end
+      end
+    end.
+
+(* bool BlockManager::ReadBlock(CBlock& block, const FlatFilePos& pos, const std::optional<uint256>& expected_hash) const
+   {
+       const auto block_data{ReadRawBlock(pos)};            if (!block_data) return false;
+       try { SpanReader{*block_data} >> TX_WITH_WITNESS(block); } catch (...) { return false; }
+       const auto block_hash{block.GetHash()};
+       if (!CheckProofOfWork(block_hash, block.nBits, GetConsensus())) return false;
+       if (expected_hash && block_hash != *expected_hash) return false;
+       return true;
+   }
+   header_ok stands for the two hash tests on the 80 header bytes (proof of work, equality with the
+   indexed hash); trailing bytes after the block inside the record are not an error (SpanReader). *)
+Definition read_block (header_ok : header -> bool) (magic file : list N) (pos : Z) : bool :=
+  match read_raw_block magic file pos with
+  | None => false
+  | Some data =>
+    match unser_block true data with
+    | Ok b _ => header_ok (b_header b)
+    | Err _ => false
+    end
+  end.
+
+(* a single-byte corruption of a file: XOR `mask` into the byte at offset `at` *)
+Fixpoint flip_byte (file : list N) (at_ : nat) (mask : N) : list N :=
+  match file, at_ with
+  | [], _ => []
+  | b :: r, O => N.lxor b mask :: r
+  | b :: r, S k => b :: flip_byte r k mask
+  end.
+
+(* ReadBlockUndo reads the undo payload and the 32-byte checksum that follows it starting at the
+   indexed position; it never looks at the 8 header bytes of the undo record.  With a collision-free
+   checksum, a single-byte corruption of the record [header(8) | payload(usize) | checksum(32)] is
+   noticed exactly when it is not in the header. *)
+Definition undo_read_ok_after_flip (usize rel_off : Z) (mask : N) : bool :=
+  (mask =? 0)%N || (rel_off <? 8) || (8 + usize + 32 <=? rel_off).
